@@ -922,6 +922,12 @@ fn gen_case(rng: &mut Prng) -> Value {
         } else {
             req_hdrs.push(json!([rname, i]));
         }
+        if rng.chance(1, 6) {
+            // the header repeated AFTER the accepted line with a value the trigger rejects (seed r9b-2: a capture that reads only the
+            // last line of that name); a rejected line captures nothing and must override nothing
+            let rname2 = if rng.chance(1, 2) { name.to_string() } else { flip_case(rng, name) };
+            req_hdrs.push(json!([rname2, *rng.pick(&["zzz", "", "~"])]));
+        }
     }
     if rng.chance(1, 3) {
         req_hdrs.push(json!(["X-Other", *rng.pick(&["o", "Other-Val", "a,b"])]));
